@@ -99,8 +99,12 @@ func cmdVerify(args []string) {
 		}
 		if *verbose || !ok {
 			fmt.Printf("%-8s %-60s %-8s %5dms %s  [%s] %s\n", map[bool]string{true: "ok", false: "FAIL"}[ok], o.Name, o.Status, o.Millis, o.Solver, o.Pos, o.Desc)
-			if !ok && o.Status == "error" {
-				fmt.Println("     ", o.Model)
+			if !ok && (o.Status == "error" || (o.Status == "sat" && os.Getenv("GOVC_MODELS") != "")) {
+				m := o.Model
+				if len(m) > 1500 {
+					m = m[:1500]
+				}
+				fmt.Println("     ", m)
 			}
 		}
 	}
